@@ -609,7 +609,19 @@ func (s *fxSim) opRemoveAll(c vs.Chooser, client int) *vs.Violation {
 	if k == "missing" {
 		if pk := s.kind(path.Dir(cl)); pk != "dir" {
 			sit = "parent_" + pk
-			if !fxInc("removeall_missing_parent") {
+			// Below a regular file both file systems refuse (ENOTDIR); only a
+			// missing parent under directories is the documented divergence
+			// (os.RemoveAll: nil, memFS: error) that is left out by default.
+			underFile := false
+			for a := path.Dir(cl); a != "/" && a != "."; a = path.Dir(a) {
+				if s.kind(a) == "file" {
+					underFile = true
+				}
+			}
+			if underFile {
+				sit = "under_file"
+				vs.G.Inc("probe.removeall_under_file")
+			} else if !fxInc("removeall_missing_parent") {
 				return nil
 			}
 		}
